@@ -242,14 +242,14 @@ def _sh_p2(tier):
 
 
 def _sh_p3(tier):
-    return product_pins(h0=[0, 1], l0=[0, 1, 2], s0=[0, 1, 2, 3], h1=[0, 1], unbounded=[False, True], perm=[0, 5])
+    return product_pins(h0=[0], l0=[0, 1], s0=[0, 1, 2, 3], h1=[0, 1], unbounded=[False, True], perm=[0])
 
 
 def _sh_sequence(tier):
     if tier == "quick":
         return product_pins(p=[3], h0=[0], l0=[1], s0=[1, 2], h1=[0, 1], perm=[0, 2, 4])
     return product_pins(p=[2], h0=[0, 1], perm=[0, 2, 4]) + \
-        product_pins(p=[3], h0=[0, 1], l0=[0, 1, 2], s0=[0, 1, 2, 3], perm=[0, 1, 2, 3, 4, 5])
+        product_pins(p=[3], h0=[0], l0=[1], s0=[0, 1, 2, 3], h1=[0, 1], perm=[0, 2, 4])
 
 
 def _sh_doubling(tier):
